@@ -125,7 +125,7 @@ func (w *Worker) Exec(bin string, s *Spec, timeout time.Duration) (*Result, erro
 	if s.OutSpec != "" {
 		o := s.OutSpec
 		if strings.HasPrefix(o, "ABS:") {
-			o = filepath.Join(cwd, strings.TrimPrefix(o, "ABS:"))
+			o = cwd + "/" + strings.TrimPrefix(o, "ABS:") // verbatim: the spelling (trailing slash, ./, //) is part of the configuration
 		}
 		args = append(args, "-o", o)
 	}
